@@ -284,6 +284,10 @@ func fieldOfStruct(e *ir.Expr, f string) *ir.Expr {
 	if e == nil {
 		return nil
 	}
+	// a record handed over by pointer is the record it points to
+	for e.Op == "ref" && len(e.Args) == 1 {
+		e = e.Args[0]
+	}
 	if e.Op == "struct" {
 		for i, n := range e.Fields {
 			if n == f {
@@ -305,6 +309,19 @@ func streamRoles(c *Ctx, row entRow, h *ssa.Function) {
 		n++
 		ka := keyArgs(in.E)
 		ok := len(ka) == 2 && isAddrOf(ka[0], "Receiver") && isAddrOf(ka[1], "Sender")
+		if !ok {
+			// whatever builds the key (a method of a key struct, a shared composer): judged by its layout — the encoded
+			// values, in order, are the receiver's then the sender's address
+			if segs, err := keyShape(c, in.E, 0); err == nil {
+				var dyn []*ir.Expr
+				for _, sg := range segs {
+					if sg.Kind != "Const" && sg.E != nil {
+						dyn = append(dyn, c.W.Expand(sg.E, 3))
+					}
+				}
+				ok = len(dyn) == 2 && isAddrOf(dyn[0], "Receiver") && isAddrOf(dyn[1], "Sender")
+			}
+		}
 		r.Require(ok, "A7.stream-roles", fmt.Sprintf("%s|%s|%s", key, in.Eff.Kind, fn(in.Eff.Fn)), pos(c, in.Eff.Site), "the stream is addressed by key (addr(msg.Receiver), addr(msg.Sender))", "key "+in.E.String())
 	}
 	r.Require(n >= 1, "A7.stream-roles", key+"|touches-stream", w.Pos(h.Pos()), "the handler accesses the stream section", "none reachable")
